@@ -23,6 +23,10 @@ type clientHello struct {
 	hasECHOuterExtensions bool
 	tls13                 bool
 	echExt                *echExt
+	// trailing holds the bytes that follow the extensions inside the
+	// message, and the message inside buf. A ClientHello has none; in an
+	// EncodedClientHelloInner this is the padding.
+	trailing []byte
 }
 
 // The ECH Extension as specified in Section 5 of
@@ -185,6 +189,7 @@ func parseClientHello(buf []byte) (*clientHello, error) {
 	if !s.ReadUint16LengthPrefixed(&extensions) {
 		return nil, ErrDecodeError
 	}
+	hello.trailing = append(slices.Clone(s), zeros...)
 
 	// https://datatracker.ietf.org/doc/html/rfc8446#section-4.2
 	// Extensions
@@ -214,13 +219,6 @@ func parseClientHello(buf []byte) (*clientHello, error) {
 	}
 	if err := hello.parseExtensions(); err != nil {
 		return nil, err
-	}
-	if hello.echExt != nil && hello.echExt.Type == 1 {
-		for _, p := range zeros {
-			if p != 0 {
-				return nil, ErrIllegalParameter
-			}
-		}
 	}
 	return hello, nil
 }
